@@ -45,6 +45,9 @@ package p2p
 // reassembly: over the size limit nothing is delivered and the assembler is emptied; otherwise the
 // packet's bytes are appended; on EOF the assembler is emptied after the message was handed on
 //@ func (*Stream).handlePacket
+// what is put into the inbox is a private copy of the reassembled message - whole, and in memory the stream never
+// touches again (the reassembly buffer is reused for the next message on the topic)
+//@   callsite chan.send requires[owncopy] arg1 != nil && fresh(arg1) && fresh(arg1.Message) && len(arg1.Message) == len(s.msgAssembler) && arg1.Sender == peerInfo
 //@   ensures[overlimit] old(len(s.msgAssembler)) + len(packet.Bytes) > maxMessageSize ==> result1 != nil && len(s.msgAssembler) == 0
 //@   ensures[append] old(len(s.msgAssembler)) + len(packet.Bytes) <= maxMessageSize && !packet.Eof ==> result1 == nil && len(s.msgAssembler) == old(len(s.msgAssembler)) + len(packet.Bytes)
 //@   ensures[eof] old(len(s.msgAssembler)) + len(packet.Bytes) <= maxMessageSize && packet.Eof ==> result1 == nil && len(s.msgAssembler) == 0
